@@ -822,6 +822,13 @@ def concrete(t, env, width=32):
                 return (r % M, not 0 <= r < M)
             if nm in ("min", "max"):
                 return min(x, y) if nm == "min" else max(x, y)
+            if nm in ("add", "sub", "mul") and "core::ops::arith" in t[1]:
+                # the operator traits on integers (&a + b, ..): checked like the built-in operators
+                w2 = width if _call_width(t[1], 0) == 0 else w
+                r = {"add": x + y, "sub": x - y, "mul": x * y}[nm]
+                if not 0 <= r < (1 << max(w2, 64 if width >= 64 else w2)):
+                    raise Panics("%s overflows (%d, %d)" % (nm, x, y))
+                return r
             if nm in ("div_ceil", "div_euclid", "rem_euclid", "checked_div", "next_multiple_of"):
                 if y == 0:
                     if nm == "checked_div":
